@@ -154,16 +154,30 @@ func (s *sharedEnv) observe(c caseT) *observation {
 	return observeOn(s.t, s.cg)
 }
 
-// inQuickB defines the sub-product of the space that part b covers in the quick tier: every policy
-// set in canonical spelling (the spelling variants are added in the thorough tier).
+// inQuickB defines the sub-product of the space that part b covers in the quick tier. What part b
+// adds to part a (which always runs the whole space) is the mapping from the resolved modes to
+// filter chains per port and protocol, the per-port passthrough chains, and the proxy-based policy
+// lookup; the competing-policy and spelling dimensions add little to that. Quick therefore takes,
+// in canonical spelling: every first-policy combination without a second policy (incl. all
+// two-entry port maps), and every second policy against three representative workload policies.
 func inQuickB(ci caseInfo) bool {
-	return ci.form == formCanonical
+	if ci.form != formCanonical {
+		return false
+	}
+	if ci.block == 'B' || ci.second == 0 || len(ci.wlPol) == 0 {
+		return true
+	}
+	w := ci.wlPol[0]
+	if w.Sel != selMatch || len(w.Ports) != 1 {
+		return false
+	}
+	return (w.Mode == mUnset && w.Ports[0] == portSetting{portHTTP, mStrict}) || (w.Mode == mStrict && w.Ports[0] == portSetting{portNoSvc, mDisable})
 }
 
 func TestC10b(t *testing.T) {
 	env := engine.GetEnv()
 	res := engine.NewResult("C10", "b-listeners")
-	res.Rule = "same case space as part a (quick: every policy set in canonical spelling; thorough: also the spelling variants); per case the PeerAuthentication objects of a ConfigGenTest environment are replaced and a push context is built from scratch (cross-checked against a freshly built environment every 251 cases), the workload's real virtualInbound listener judged per destination port by an Envoy filter-chain interpreter over 9 wire formats (plaintext tcp/http1/h2c, sidecar mTLS tcp/legacy/http1/h2, foreign TLS with/without ALPN), plus server resolver through the proxy and client decision through the client proxy's scoped view; non-trivial = as in part a"
+	res.Rule = "same case space as part a (quick: canonical spelling, every first-policy combination incl. all two-entry port maps, every second policy against {no workload policy, UNSET+8080:STRICT, STRICT+5555:DISABLE}; thorough: the whole space); per case the PeerAuthentication objects of a ConfigGenTest environment are replaced and a push context is built from scratch (cross-checked against a freshly built environment every 251 cases), the workload's real virtualInbound listener judged per destination port by an Envoy filter-chain interpreter over 9 wire formats (plaintext tcp/http1/h2c, sidecar mTLS tcp/legacy/http1/h2, foreign TLS with/without ALPN), plus server resolver through the proxy and client decision through the client proxy's scoped view; non-trivial = as in part a"
 	defer res.Write(t, env)
 
 	if env.Replay != "" {
@@ -188,13 +202,17 @@ func TestC10b(t *testing.T) {
 	res.Bounds["ports_evaluated"] = evalPorts
 	res.Bounds["wire_formats"] = len(wires)
 	var n int64
-	sp.each(func(ord int64, ci caseInfo, c caseT) bool {
+	sp.each(func(ord int64, ci caseInfo) bool {
 		if !env.Thorough() && !inQuickB(ci) {
 			return true
 		}
 		n++
 		if !env.Mine(n) {
 			return true
+		}
+		c, ok := sp.build(ci)
+		if !ok {
+			panic("formApplies and applyForm disagree for " + c.String())
 		}
 		if env.Expired() {
 			res.Cap(fmt.Sprintf("deadline at ordinal %d/%d", ord, sp.sizeA+sp.sizeB))
@@ -225,7 +243,7 @@ func TestC10b(t *testing.T) {
 		if nontrivial(c, e) {
 			res.NontrivialCase(fmt.Sprint(ord))
 		}
-		if n%40009 == 1 {
+		if n%4001 == 1 {
 			res.Sample(map[string]any{"case": c.String(), "expected": expectString(e), "observed": o})
 		}
 		return true
